@@ -343,7 +343,7 @@ SET_OPS = [('set', '='), ('add', '+='), ('sub', '-='), ('mul', '*='), ('div', '/
 W_LHS = [
     ('globals_new', 'globals.SbW@', '5'), ('globals_num', 'globals.SbNum', '5'),
     ('ident_new', 'sbx@', '5'), ('ident_global', 'SbNum', '5'), ('strkey', '"sbk"', '5'),
-    ('this', 'this.sbx', '5'), ('locals', 'locals.sbx', '5'),
+    ('this', 'this.sbx', '5'), ('locals', 'locals.sbx@', '5'),
     ('call_attr', 'get_object(Host, "sbh").display_name', '"sbw"'), ('call_vars', 'get_object(Host, "sbh").vars.num', '5'),
     ('call_idx_vars', 'get_objects(Host)[0].vars.num', '5'), ('call_idx_new', 'get_objects(Host)[0].vars.added@', 'true'),
     ('live_attr', 'host.vars.num', '5'), ('live_dict', 'SbDict.a', '5'), ('live_arr', 'SbArr[0]', '5'), ('live_ns', 'SbNs.x', '5'),
@@ -354,7 +354,7 @@ W_LHS = [
 W_LHS_OPS = {'call_attr': ('set', 'add'), 'call_idx_new': ('set',)}
 # the other writers: (name, text)
 W_OTHER = [
-    ('const', 'const SbWC@ = 1'), ('var', 'var sbv = 1'), ('namespace', 'namespace SbWN@ { }'),
+    ('const', 'const SbWC@ = 1'), ('var', 'var sbv@ = 1'), ('namespace', 'namespace SbWN@ { }'),
     ('function', 'function sbwf@() { }'), ('function_use', 'function sbwf@() use(q = 1) { }'),
     ('for', 'for (q in [ 1 ]) { }'), ('for_kv', 'for (k => v in SbDict) { }'), ('while', 'while (false) { }'),
     ('apply', 'apply Service "sbwa@" to Host { check_command = "sbcmd"; assign where true }'),
@@ -503,7 +503,48 @@ def call_probes(fn, rnd, tier):
     return out
 
 
+def model_predicted_failures(cases):
+    """indices of the cases in which the extracted model, evaluated over the CURRENT source facts, predicts a write or a hidden
+    read (the known findings aside): on an unchanged tree none; after a source change that breaks a premise these are the
+    inputs on which the model's evaluator exhibits the consequence"""
+    if not os.path.exists(core.VMODEL):
+        return set()
+    wd = tempfile.mkdtemp(prefix='sbpred_', dir=core.B)
+    try:
+        tmp = [{'id': i + 1, 'lines': c['lines']} for i, c in enumerate(cases)]
+        got = core.run_model_shard((HEADER, tmp, wd, 0, 300))
+    except Exception:
+        return set()
+    finally:
+        shutil.rmtree(wd, ignore_errors=True)
+    bad = set()
+    for i, c in enumerate(cases):
+        if c['tags'].get('family') in ('hidden-global', 'console-returns-object', 'registry'):
+            continue
+        if any(l.startswith('sb_probe') and (' changed=1' in l or ' hidden=1' in l) for l in got.get(i + 1, [])):
+            bad.add(i)
+    return bad
+
+
 def generate(seed, tier):
+    """tier 'search' (the runner's failing-input search after a broken proof / correspondence): a population of quick-tier
+    size from another seed, the cases the MODEL predicts to fail first"""
+    search = tier == 'search'
+    if search:
+        tier = 'quick'
+    cases = _generate(seed, tier)
+    skip = [x for x in os.environ.get('VERIF_C19_SKIP_FAMILIES', '').split(',') if x]     # test knob: exercise the search path
+    if skip and not search:
+        cases = [c for c in cases if c['tags'].get('family') not in skip]
+    if search:
+        bad = model_predicted_failures(cases)
+        cases = [c for i, c in enumerate(cases) if i in bad] + [c for i, c in enumerate(cases) if i not in bad]
+        if cases:
+            cases[0]['tags']['model_predicted_failing_cases'] = len(bad)
+    return cases
+
+
+def _generate(seed, tier):
     rnd = random.Random(seed)
     fns, types, hidden = enumerate_live()
     cases = []
